@@ -8,8 +8,10 @@ import H2.Proofs.FrameWrite
   against the real code on every check (correspondence).
 * `H2.Frame.Spec.parse` / `sendWF` (Frame/Spec.lean) is the RFC 7540 §4.1/§6 grammar, written with the RFC's numbers.
 
-Read side: full theorem. Write side: full statement `C05_write_full`, proved for everything except the two known
-findings (F14 PUSH_PROMISE writer, F35 zero SETTINGS values), for which the model exhibits the failure (`*_witness`).
+Read side: full theorem. Write side: full statement `C05_write_full`, proved for everything except the known
+finding F14 (PUSH_PROMISE writer), for which the model exhibits the failure (`*_witness`). F35 (SETTINGS values of
+zero could not be written) is repaired: SETTINGS frames are covered in full (`write_wf_settings`) and the former
+witnesses are kept as regression examples.
 -/
 namespace H2.Props.C05
 open H2 H2.Frame
@@ -66,15 +68,15 @@ def C05_write_full : Prop :=
         .frame ⟨w.typ, (serialize 0 pad w).1, stream, (serialize 0 pad w).2.length, bd⟩ [] ∧
       sameBody bd w.want = true
 
-/-- **write_wf** (partial): the full statement for every frame outside the two known-finding classes -/
+/-- **write_wf** (partial): the full statement for every frame outside the known-finding class F14 -/
 theorem write_wf_partial (stream pad : Nat) (w : WFrame) (hr : InRange w) (hp : PadOk pad) (hs : stream < 2 ^ 31)
     (hsz : (serialize 0 pad w).2.length < 2 ^ 24) (hso : Spec.streamOk w.typ stream = true)
-    (h14 : ¬ IsPushPromise w) (h47 : ¬ HasZeroSetting w) :
+    (h14 : ¬ IsPushPromise w) :
     Spec.sendWF (write 0 stream pad w) = true ∧
     ∃ bd, Spec.parse 0 (write 0 stream pad w) =
         .frame ⟨w.typ, (serialize 0 pad w).1, stream, (serialize 0 pad w).2.length, bd⟩ [] ∧
       sameBody bd w.want = true :=
-  have hB := buildable_of w hr h14 h47
+  have hB := buildable_of w hr h14
   ⟨write_sendwf stream pad w hB hp hs hsz hso, write_parse stream pad w hB hp hs hsz⟩
 
 /-- F14: a PUSH_PROMISE built through the API with a 2-octet header block is written as a malformed frame … -/
@@ -85,25 +87,62 @@ theorem write_wf_witness_F14' :
     Spec.parse 0 (write 0 1 0 (.pushPromise [130, 134, 132, 65, 138])) =
       .frame ⟨5, 0, 1, 5, .pushPromise 42370113 false [138]⟩ [] := by decide
 
-/-- F35: HEADER_TABLE_SIZE = 0 is not written; a reader is left with the initial 4096 -/
-theorem write_wf_witness_F35 :
-    ∃ sv, Spec.parse 0 (write 0 0 0 (.settings false 0 false 100 65535 16384 0)) = .frame ⟨4, 0, 0, 18, .settings sv⟩ [] ∧
-      sv.tableSize = 4096 ∧
-      sameBody (.settings sv) (WFrame.want (.settings false 0 false 100 65535 16384 0)) = false :=
-  ⟨Spec.settingsVal false [(3, 100), (4, 65535), (5, 16384)], by decide, by decide, by decide⟩
+/-- a SETTINGS payload is at most six pairs -/
+theorem settings_payload_le (pad : Nat) (ack push : Bool) (ts ms ws fs hs : Nat) :
+    (serialize 0 pad (.settings ack ts push ms ws fs hs)).2.length ≤ 36 := by
+  cases ack
+  · simp only [serialize, settingsEncode, settingsPair, toBe16, toBe32, Bool.false_eq_true, if_false, List.length_append]
+    repeat' split
+    all_goals simp
+  · simp [serialize]
 
-/-- the two classes are the only obstacles: the full statement follows once they are empty -/
-theorem write_full_of_no_findings (h : ∀ w, ¬ IsPushPromise w ∧ ¬ HasZeroSetting w) : C05_write_full :=
-  fun stream pad w hr hp hs hsz hso => write_wf_partial stream pad w hr hp hs hsz hso (h w).1 (h w).2
+/-- **write_wf for SETTINGS, in full** (F35 repaired): every SETTINGS frame the setters can build — any table size,
+stream limit and window from 0 up, push on or off, acknowledgement or not — is written as one frame a conforming sender
+may emit and the RFC grammar reads back exactly the values the caller set, zero included. -/
+theorem write_wf_settings (pad : Nat) (ack push : Bool) (ts ms ws fs hs : Nat)
+    (hr : InRange (.settings ack ts push ms ws fs hs)) (hp : PadOk pad) :
+    Spec.sendWF (write 0 0 pad (.settings ack ts push ms ws fs hs)) = true ∧
+    ∃ bd, Spec.parse 0 (write 0 0 pad (.settings ack ts push ms ws fs hs)) =
+        .frame ⟨4, (serialize 0 pad (.settings ack ts push ms ws fs hs)).1, 0,
+                (serialize 0 pad (.settings ack ts push ms ws fs hs)).2.length, bd⟩ [] ∧
+      sameBody bd (WFrame.settings ack ts push ms ws fs hs).want = true :=
+  write_wf_partial 0 pad _ hr hp (by omega)
+    (Nat.lt_of_le_of_lt (settings_payload_le pad ack push ts ms ws fs hs) (by omega))
+    (by simp [WFrame.typ, Gen.c_FrameSettings, Spec.streamOk]) (by simp [IsPushPromise])
+
+/-- F35, the recorded witness, now a regression example: HEADER_TABLE_SIZE = 0 is written (with ENABLE_PUSH = 0 beside
+it) and a reader is left with a table of 0 octets, not the initial 4096 -/
+theorem write_settings_zero_regression :
+    ∃ sv, Spec.parse 0 (write 0 0 0 (.settings false 0 false 100 65535 16384 0)) = .frame ⟨4, 0, 0, 30, .settings sv⟩ [] ∧
+      sv.tableSize = 0 ∧ sv.hasPush = true ∧ sv.enablePush = false ∧
+      sameBody (.settings sv) (WFrame.want (.settings false 0 false 100 65535 16384 0)) = true :=
+  ⟨Spec.settingsVal false [(1, 0), (2, 0), (3, 100), (4, 65535), (5, 16384)], by decide, by decide, by decide, by decide, by decide⟩
+
+/-- … and MAX_CONCURRENT_STREAMS = 0, INITIAL_WINDOW_SIZE = 0 (second line of known/F35.ops) -/
+theorem write_settings_zero_regression' :
+    ∃ sv, Spec.parse 0 (write 0 0 0 (.settings false 4096 false 0 0 16384 0)) = .frame ⟨4, 0, 0, 30, .settings sv⟩ [] ∧
+      sv.maxStreams = 0 ∧ sv.windowSize = 0 ∧
+      sameBody (.settings sv) (WFrame.want (.settings false 4096 false 0 0 16384 0)) = true :=
+  ⟨Spec.settingsVal false [(1, 4096), (2, 0), (3, 0), (4, 0), (5, 16384)], by decide, by decide, by decide, by decide⟩
+
+/-- a `Settings` that was never `Reset` and had two setters called (the client's own: `SetMaxWindowSize(1<<20)`,
+`SetPush(false)`) announces those two values and none of its untouched zeros -/
+theorem encode_unset_zero_left_out :
+    settingsEncode { tableSize := 0, maxStreams := 0, windowSize := 1048576, frameSize := 0, headerSize := 0,
+                     hasWindowSize := true, hasPush := true } =
+      [0, 2, 0, 0, 0, 0, 0, 4, 0, 16, 0, 0] := by decide
+
+/-- F14 is the only obstacle left: the full statement follows once its class is empty -/
+theorem write_full_of_no_findings (h : ∀ w, ¬ IsPushPromise w) : C05_write_full :=
+  fun stream pad w hr hp hs hsz hso => write_wf_partial stream pad w hr hp hs hsz hso (h w)
 
 /-! non-vacuity -/
 example : InRange (.data true [104, 105]) ∧ PadOk 9 ∧ ¬ IsPushPromise (.data true [104, 105]) ∧
-    ¬ HasZeroSetting (.data true [104, 105]) ∧ Spec.streamOk (WFrame.data true [104, 105]).typ 1 = true := by
-  refine ⟨by unfold InRange; decide, Or.inr ⟨by omega, by omega⟩, by simp [IsPushPromise], by simp [HasZeroSetting], by decide⟩
+    Spec.streamOk (WFrame.data true [104, 105]).typ 1 = true := by
+  refine ⟨by unfold InRange; decide, Or.inr ⟨by omega, by omega⟩, by simp [IsPushPromise], by decide⟩
 example : write 0 1 9 (.data true [104, 105]) = [0, 0, 12, 0, 9, 0, 0, 0, 1, 9, 104, 105, 0, 0, 0, 0, 0, 0, 0, 0, 0] := by decide
 example : Spec.parse 16384 [0, 0, 12, 0, 9, 128, 0, 0, 1, 9, 104, 105, 1, 2, 3, 4, 5, 6, 7, 8, 9, 77] =
     .frame ⟨0, 9, 1, 12, .data true [104, 105]⟩ [77] := by decide
-example : InRange (.settings false 4096 false 100 65535 16384 0) ∧ ¬ HasZeroSetting (.settings false 4096 false 100 65535 16384 0) := by
-  refine ⟨Or.inr (by omega), by simp [HasZeroSetting]⟩
+example : InRange (.settings false 0 false 0 0 16384 0) ∧ PadOk 0 := ⟨Or.inr (by omega), Or.inl rfl⟩
 
 end H2.Props.C05
